@@ -18,7 +18,7 @@ def witness_rule(ctx, rule, prop, only=None):
             chk.ob(rule, where, ok, "compiles (as it must)" if ok else f"must compile but fails: {w.get('codes')} {w.get('messages', [])[:2]}", w.get("file", ""))
         else:
             codes = w.get("codes", [])
-            ok = w.get("exit") != 0 and exp in codes
+            ok = w.get("exit") != 0 and (exp in codes or (exp == "fail" and codes))
             if ok:
                 detail = f"rejected with {exp} (as it must)"
             elif w.get("exit") == 0:
